@@ -857,6 +857,22 @@ func (x *Exec) makeSlice(fr *Frame, st *State, ins *ssa.MakeSlice) error {
 	lim := BVUint(1<<40, 64)
 	ok := And(bvCmp("bvsge", ln, BVInt(0, 64)), bvCmp("bvsle", ln, cp), bvCmp("bvule", cp, lim))
 	x.obligation(fr, ins, "alloc", st.PC, ok, "make: len out of range (negative, > cap, or > 2^40 elements)")
+	if x.allocBound != nil {
+		if _, isConst := cp.Const(); !isConst {
+			// contract option `opt alloc=<expr>`: bytes allocated by a data-dependent make are bounded by the expression
+			env := x.newEnv(x.Top, nil, x.topContract, x.topArgs, st, st)
+			if bound, err := env.intArg(x.allocBound.Expr, 128); err == nil {
+				sz := types.SizesFor("gc", "amd64").Sizeof(elem)
+				if sz < 1 {
+					sz = 1
+				}
+				bytesT := bvBin("bvmul", ZeroExt(cp, 128), BVInt(sz, 128))
+				x.obligation(fr, ins, "allocbound", st.PC, bvCmp("bvule", bytesT, bound), fmt.Sprintf("bytes allocated (%d per element) exceed the declared bound %s", sz, x.allocBound.Text))
+			} else {
+				return fmt.Errorf("opt alloc: %v", err)
+			}
+		}
+	}
 	x.C.Assume(Implies(x.absPC(st.PC),ok), "continuing past make check")
 	ref := x.AllocBacking(st, elem, nil)
 	fr.Env[ins] = TV{T: x.C.Name(ins.Name(), MkSlice(ref, BVInt(0, 64), ln, cp)), Typ: ins.Type()}
